@@ -281,6 +281,72 @@ fn seg_follows(kind: GraphKind, d: &deno_graph::Dependency, t: &ModuleSpecifier)
   code || (ty && kind.include_types())
 }
 
+/// Graphs that carry fast-check modules: segmenting must still go by the
+/// modules' real dependencies.
+fn body_fast_check(slots: usize) -> impl Fn(&Ch) -> Run + Sync + Send {
+  move |ch: &Ch| {
+    let mut run = Run::default();
+    let Some((r, g, root_sets)) = crate::props::c15::fast_check_graph(ch, slots) else {
+      run.violate("build-did-not-finish", "deadlock", json!({}));
+      return run;
+    };
+    let graph = &r.graph;
+    let with_fc = r.modules.values().filter(|(_, s)| matches!(s, crate::fc::FcSlot::Module { .. })).count();
+    let mut outcome = vec![];
+    for seg_roots in root_sets.iter().skip(1) {
+      if !seg_roots.iter().all(|u| graph.contains(u)) {
+        continue;
+      }
+      let seg = graph.segment(seg_roots);
+      run.evals += 1;
+      let case = || {
+        json!({"package": g.pkg.files.iter().map(|(p, s)| json!([p, s])).collect::<Vec<_>>(), "exports": g.pkg.exports, "workspace_member": g.pkg.workspace,
+          "modules_with_fast_check_output": with_fc, "segment_roots": seg_roots.iter().map(|r| r.as_str()).collect::<Vec<_>>(),
+          "original": listing(graph), "segment": listing(&seg)})
+      };
+      for m in seg.modules() {
+        for (text, d) in m.dependencies() {
+          for prefer_types in [false, true] {
+            let a = seg.resolve_dependency(text, m.specifier(), prefer_types);
+            let b = graph.resolve_dependency(text, m.specifier(), prefer_types);
+            if a != b {
+              run.violate(
+                "segment-resolve_dependency-differs@All".to_string(),
+                format!("resolve_dependency({text:?}, {}, prefer_types={prefer_types}): segment {:?}, original {:?}", m.specifier(), a.map(|s| s.as_str()), b.map(|s| s.as_str())),
+                case(),
+              );
+            }
+          }
+          for t in [d.get_code(), d.get_type()].into_iter().flatten() {
+            let a = tg(seg.try_get(t));
+            let b = tg(graph.try_get(t));
+            if a != b && seg_follows(GraphKind::All, d, t) {
+              run.violate("segment-target-differs@All".to_string(), format!("dependency {text:?} of {} -> {t}: segment has {a}, original has {b}", m.specifier()), case());
+            }
+          }
+        }
+      }
+      for follow_dynamic in [false, true] {
+        let opts = || WalkOptions { check_js: deno_graph::CheckJsOption::True, follow_dynamic, kind: GraphKind::All, prefer_fast_check_graph: false };
+        let a = seg.walk(seg_roots.iter(), opts()).validate().is_ok();
+        let b = graph.walk(seg_roots.iter(), opts()).validate().is_ok();
+        if a != b {
+          run.violate("segment-validation-differs@All".to_string(), format!("validate(follow_dynamic={follow_dynamic}): segment ok={a}, original ok={b}"), case());
+        }
+      }
+      outcome.push(listing(&seg).len());
+    }
+    run.count("graphs_with_fast_check_modules", (with_fc > 0) as u64);
+    run.state_key = hash_of(&format!("{:?}{:?}{}{}", g.pkg.files, g.pkg.exports, g.pkg.workspace, root_sets[0].len()));
+    run.nontrivial = with_fc > 0;
+    run.outcome_key = hash_of(&outcome);
+    if ch.describe() {
+      run.sample = Some(json!({"package": g.pkg.files.iter().map(|(p, s)| json!([p, s])).collect::<Vec<_>>(), "modules_with_fast_check_output": with_fc}));
+    }
+    run
+  }
+}
+
 pub fn prop(tier: Tier) -> Prop {
   let parts = match tier {
     Tier::Quick => vec![Part {
@@ -319,6 +385,15 @@ pub fn prop(tier: Tier) -> Prop {
       what: "every world over the core alphabet, enumerated completely: 3 specifiers (kinds TypeScript / missing / JavaScript / JSON / redirect), <= 3 edges from {import, dynamic import, import type}",
     }),
   }
+  parts.push(Part {
+    name: "fast-check",
+    body: Box::new(body_fast_check(2)),
+    modes: match tier {
+      Tier::Quick => vec![Mode::Deviations(1), Mode::Deviations(2)],
+      Tier::Thorough => vec![Mode::Deviations(2), Mode::Deviations(3)],
+    },
+    what: "graphs with fast-check modules (generated package + dependency package after build_fast_check_type_graph, with imports only function bodies use): segments at each entrypoint / the dependency package / an inner pair keep every dependency of every contained module resolving as in the original",
+  });
   Prop {
     id: "C18",
     rule: "state = world (as in C17); per world: 3 graph kinds x every set of <= 2 module-holding specifiers as segment roots. Checked: every dependency of every module in the segment resolves (both preferences) and looks up (try_get) exactly as in the original; validation verdict from those roots (follow_dynamic both ways); for non-original roots the listing equals a direct build of those roots. Non-trivial = world with >= 2 edges or a non-default form.".into(),
